@@ -1,10 +1,12 @@
 import GV.Lib.Line
 import GV.Model.Offsets
-import GV.Model.OffsetsTruth
+import GV.Model.OffsetsTruthA
+import GV.Model.OffsetsWit
 /-
   op (feed_impl): blk <era> <form description> <hex block> \t <implementation output>
   out: S=<ranges|err> E=<ranges|err> cmp=<copied from the implementation: the
        harness' comparison of the reported ranges with Cbor() of the decoded components>
+       X=<datum / redeemer / script ranges per transaction (model: GV.Model.OffsetsWit)>
   spec: when the era decoder accepted the block (cmp ≠ nodec), both entry points
         must report exactly the ranges obtained by composing child spans along
         each component's path, and those must slice out the decoded components.
@@ -22,6 +24,17 @@ def fmtLocs : Option (List Loc) → String
   | none => "err"
   | some ls => toString ls.length ++ String.join (ls.map fmtLoc)
 
+def fmtComp (c : GV.Model.OffsetsWit.Comp) : String :=
+  if c.isEmpty then "-" else
+  "D" ++ ",".intercalate (c.datums.map fmtRange) ++ ";R" ++
+    ",".intercalate (c.redeemers.map fun r => s!"{r.1}.{r.2.1}@{r.2.2.1}+{r.2.2.2}") ++ ";S" ++
+    ",".intercalate (c.scripts.map fmtRange)
+
+def fmtComps : Option (List GV.Model.OffsetsWit.Comp) → String
+  | none => "err"
+  | some [] => "none"
+  | some cs => "|".intercalate (cs.map fmtComp)
+
 def cmpField (impl : String) : String :=
   match (impl.splitOn " ").filter (fun t => t.startsWith "cmp=") with
   | t :: _ => t
@@ -35,15 +48,28 @@ def handle (line : String) : Out :=
       match parseHex? hex with
       | none => badOp
       | some b =>
-        let m := fmtLocs (extract b)
+        let ex := extract b
+        let m := fmtLocs ex
         let cmp := cmpField impl
-        let model := s!"S={m} E={m} {cmp}"
+        let x := fmtComps (GV.Model.OffsetsWit.componentsOf b ex)
+        let model := s!"S={m} E={m} {cmp} X={x}"
         let spec :=
           if cmp = "cmp=nodec" then "*"
-          else match GV.Model.OffsetsTruth.truth era b with
+          else match GV.Model.OffsetsTruthA.truth era b.toArray with
             | none => "*"
-            | some t => let s := fmtLocs (some t); s!"S={s} E={s} cmp=ok"
-        { model := model, spec := spec }
+            | some t => let s := fmtLocs (some t); s!"S={s} E={s} cmp=ok *"
+        -- known-finding class `script-key`: the block carries a Plutus script in a witness
+        -- set and the ONLY thing the harness found wrong is a Scripts key that matches no
+        -- decoded script (every range, and every other component, was verified first)
+        let hasPlutus := match GV.Model.OffsetsWit.componentsOf b ex with
+          | some cs => cs.any fun c => c.plutus > 0
+          | none => false
+        let onlyScriptKey := match cmp.splitOn ":" with
+          | ["cmp=bad", "E", t] => t.endsWith ".script-key" && !(t.contains ';')
+          | _ => false
+        let rangesOk := spec != "*" && (s!"S={m} E={m} cmp=ok *" == spec)
+        { model := model, spec := spec,
+          cls := if hasPlutus && onlyScriptKey && rangesOk then "script-key" else "" }
     | _ => badOp
   | _ => badOp
 
